@@ -416,6 +416,7 @@ impl Exec<'_> {
         let n: usize = p[2].parse().ok()?;
         match p[0] {
             "gen" => Some(vsets::generated(seed, n)),
+            "gene" => Some(vsets::generated_ex(seed, n, true)),
             "tc" => {
                 let mut all = vsets::testcases();
                 let mut r = Rng::new(seed);
@@ -484,7 +485,9 @@ impl Exec<'_> {
         for i in &order {
             cfiles.push(files[*i].clone());
         }
+        let mut wm_k = String::new();
         let frags: Vec<Option<Result<Vec<u8>, String>>> = if cap == "same" {
+            wm_k = self.cache[&key].1.watermarks.get(ks[0]).cloned().unwrap_or_default();
             self.cache[&key].1.fragments.clone()
         } else {
             match vsets::run(&cfiles, vec![None; cfiles.len()], RunCfg { capture: true, gaps: vec![], skip: vec![], want_dumps: false, want_emit: false }) {
@@ -492,13 +495,16 @@ impl Exec<'_> {
                     let off = cfiles.len() - n;
                     let mut v = vec![None; n];
                     for (pos, i) in order.iter().enumerate() {
+                        if *i == ks[0] {
+                            wm_k = c.watermarks.get(pos + off).cloned().unwrap_or_default();
+                        }
                         // a file with pass-1 diagnostics is never cached by the CLI
                         v[*i] = if c.pass1[pos + off].is_empty() { c.fragments[pos + off].clone() } else { Some(Err("diag".into())) };
                     }
                     v
                 }
                 Err(_) => {
-                    self.log.push3(line.into(), "capture-run-panic".into(), "?".into());
+                    self.log.push3(line.into(), "capture-run-panic".into(), "no-panic".into());
                     return true;
                 }
             }
@@ -508,6 +514,11 @@ impl Exec<'_> {
         for k in &ks {
             match &frags[*k] {
                 Some(Ok(b)) if a.pass1[*k].is_empty() => restore[*k] = Some(b.clone()),
+                Some(Err(e)) if e == "panic" => {
+                    self.log.count("capture.panic");
+                    self.log.push3(line.into(), "cap=panic".into(), "no-panic".into());
+                    return true;
+                }
                 Some(Err(e)) => {
                     let why = if e == "diag" { "diag" } else if e.contains("outside window") || e.contains("Serde Serialization Error") { "refused-window" } else { "refused-other" };
                     self.log.count(&format!("capture.{why}"));
@@ -523,6 +534,36 @@ impl Exec<'_> {
             }
         }
         self.log.count("capture.ok");
+        // generator quality: pending-list lengths in the capture watermark of file k
+        {
+            let num = |field: &str| -> Option<u64> {
+                let p = wm_k.find(&format!("{field}: "))? + field.len() + 2;
+                let t = &wm_k[p..];
+                t[..t.bytes().take_while(|b| b.is_ascii_digit()).count()].parse().ok()
+            };
+            let four: Vec<Option<u64>> = ["import", "bind", "msb", "connect"].iter().map(|f| num(f)).collect();
+            let seven: Vec<Option<u64>> =
+                ["import", "bind", "msb", "connect", "reference_candidates", "type_dag_candidates", "generic_pending"].iter().map(|f| num(f)).collect();
+            let distinct = |v: &[Option<u64>]| {
+                let mut x: Vec<u64> = v.iter().flatten().copied().collect();
+                let n = x.len();
+                x.sort();
+                x.dedup();
+                n == v.len() && x.len() == n
+            };
+            if distinct(&four) {
+                self.log.count("wm.pending4-pairwise-distinct");
+            }
+            if distinct(&seven) {
+                self.log.count("wm.pending7-pairwise-distinct");
+            }
+            if four[2] != four[3] {
+                self.log.count("wm.msb!=connect");
+            }
+            if four.iter().all(|x| *x == Some(0)) {
+                self.log.count("wm.pending4-all-zero");
+            }
+        }
         let mut gaps = vec![];
         if gap != 0 {
             let mut r = Rng::new(gap);
@@ -596,6 +637,29 @@ impl Exec<'_> {
             }
             (s, format!("{:x}", vsets::fnv(&m)))
         };
+        // (A_k) fresh run that, like B, leaves file k out of pass 2 / emit: B differs from it only in
+        // "restored" vs "parsed", so EVERY later diagnostic (also those inside k) must agree
+        match vsets::run(&files, vec![None; n], RunCfg { capture: false, gaps: vec![], skip: ks.clone(), want_dumps: false, want_emit: true }) {
+            Ok(ak) => {
+                let all = |r: &RunOut| -> Vec<String> {
+                    let mut v: Vec<String> = r.later.iter().map(|(ph, src, t)| format!("{ph}|{src}|{t}")).collect();
+                    v.sort();
+                    v
+                };
+                let (ka, kb) = (all(&ak), all(&b));
+                ia.push_str(&format!(" diagk={}:{:x}", ka.len(), vsets::fnv(ka.join("\n").as_bytes())));
+                ib.push_str(&format!(" diagk={}:{:x}", kb.len(), vsets::fnv(kb.join("\n").as_bytes())));
+                if ka != kb {
+                    mism.push(("diagk".into(), ka.join("\n"), kb.join("\n")));
+                }
+                self.log.add("later.diagnostics", ka.len() as u64);
+                if ak.sv != b.sv || ak.map != b.map {
+                    ib.push_str(" svk=differs");
+                    mism.push(("svk".into(), format!("{:?}", ak.sv), format!("{:?}", b.sv)));
+                }
+            }
+            Err(_) => ia.push_str(" diagk=fresh-run-panic"),
+        }
         let ((sa, ma), (sb, mb)) = (svh(a), svh(&b));
         ia.push_str(&format!(" sv={:x} map={ma}", vsets::fnv(sa.as_bytes())));
         ib.push_str(&format!(" sv={:x} map={mb}", vsets::fnv(sb.as_bytes())));
@@ -815,9 +879,11 @@ pub fn main(opts: &Opts) -> i32 {
     // generated projects: every position k, one capture order per k, gaps on
     for _ in 0..nsets {
         let seed = r.next() >> 20;
-        let nf = r.range(2, 7);
-        let spec = format!("gen:{seed:x}:{nf}");
-        let n = vsets::generated(seed, nf as usize).len();
+        let nf = r.range(3, 8);
+        // two thirds of the projects also contain a file with a post-pass diagnostic
+        let errs = r.chance(2, 3);
+        let spec = format!("{}:{seed:x}:{nf}", if errs { "gene" } else { "gen" });
+        let n = vsets::generated_ex(seed, nf as usize, errs).len();
         for k in 0..n {
             let cap = caps[r.below(caps.len() as u64) as usize];
             let gap = if r.chance(3, 4) { r.next() >> 8 | 1 } else { 0 };
@@ -866,7 +932,7 @@ fn probe(opts: &Opts) -> i32 {
     let mut bad = 0;
     let tc = opts.get("probe") == Some("tc");
     for seed in 0..(if tc { 1 } else { opts.num("n", 30) }) {
-        let files = if tc { vsets::testcases() } else { vsets::generated(seed, 2 + (seed as usize % 7)) };
+        let files = if tc { vsets::testcases() } else { vsets::generated_ex(seed, 2 + (seed as usize % 7), opts.get("probe") == Some("err")) };
         let n = files.len();
         match vsets::run(&files, vec![None; n], RunCfg { capture: true, gaps: vec![], skip: vec![], want_dumps: false, want_emit: true }) {
             Ok(o) => {
@@ -887,6 +953,9 @@ fn probe(opts: &Opts) -> i32 {
                 for (i, f) in o.fragments.iter().enumerate() {
                     if let Some(Err(e)) = f {
                         println!("   capture {}: {e}", files[i].0);
+                    }
+                    if opts.get("wm").is_some() {
+                        println!("   wm {}: {}", files[i].0, o.watermarks.get(i).cloned().unwrap_or_default());
                     }
                 }
             }
